@@ -324,18 +324,9 @@ func c08Headers(p *Prog, r *Report) {
 			continue
 		}
 		val, _ := constString(s.call.Common().Args[2])
-		okTLS := false
-		for _, t := range NilTests(fn, func(v ssa.Value) bool {
-			base, ok := loadPath(v, "TLS")
-			return ok && base == ssa.Value(req)
-		}) {
-			e := t.Nil
-			if val == "https" {
-				e = t.NonNil
-			}
-			if (val == "https" || val == "http") && OnlyViaEdge(fn, s.call, e) {
-				okTLS = true
-			}
+		okTLS := protoChosenByTLS(p, fn, s.call.Common().Args[2], s.call, req, 0)
+		if val == "" {
+			val = "(computed)"
 		}
 		r.Check(okTLS, "C08.R4", rn+": X-Forwarded-Proto = "+val+" on the matching TLS edge", p.InstrPos(s.call), "https iff req.TLS != nil", "the proto value "+val+" is not chosen by req.TLS != nil")
 	}
@@ -497,6 +488,68 @@ func c08Headers(p *Prog, r *Report) {
 	r.Check(okRm, "C08.R5", rn+": untrusted forward headers removed before anything is set", p.FuncPos(fn), "RemoveHeaders(req.Header, XHeaders...) exactly on the TrustForwardHeader == false edge, before every Set", "client-supplied X-* headers are not removed (exactly when untrusted, before the rewriter sets its own)")
 }
 
+// protoChosenByTLS: value v (used at instruction `at` of fn) is "https" exactly where req.TLS != nil and
+// "http" where it is nil: a constant on the matching edge, a phi of such constants, or the result of a
+// module function of the request that returns them on the matching edges.
+func protoChosenByTLS(p *Prog, fn *ssa.Function, v ssa.Value, at ssa.Instruction, req ssa.Value, d int) bool {
+	if d > 3 {
+		return false
+	}
+	nts := NilTests(fn, func(x ssa.Value) bool {
+		base, ok := loadPath(x, "TLS")
+		return ok && base == req
+	})
+	v = stripConv(v)
+	if val, ok := constString(v); ok {
+		if val != "https" && val != "http" {
+			return false
+		}
+		for _, t := range nts {
+			e := t.Nil
+			if val == "https" {
+				e = t.NonNil
+			}
+			if OnlyViaEdge(fn, at, e) {
+				return true
+			}
+		}
+		return false
+	}
+	switch x := v.(type) {
+	case *ssa.Phi:
+		for i, e := range x.Edges {
+			pred := x.Block().Preds[i]
+			if !protoChosenByTLS(p, fn, e, pred.Instrs[len(pred.Instrs)-1], req, d+1) {
+				return false
+			}
+		}
+		return len(x.Edges) > 0
+	case *ssa.Call:
+		g := x.Common().StaticCallee()
+		if g == nil || !p.InModule(g) || g.Blocks == nil {
+			return false
+		}
+		j := -1
+		for i, a := range x.Common().Args {
+			if stripConv(a) == req {
+				j = i
+			}
+		}
+		if j < 0 || j >= len(g.Params) {
+			return false
+		}
+		n := 0
+		for _, ret := range Returns(g) {
+			n++
+			if !protoChosenByTLS(p, g, ReturnOperand(ret, 0), ret, g.Params[j], d+1) {
+				return false
+			}
+		}
+		return n > 0
+	}
+	return false
+}
+
 func c08Wiring(p *Prog, r *Report) {
 	fn := p.Func("forward", "New")
 	if fn == nil {
@@ -534,6 +587,19 @@ func c08Wiring(p *Prog, r *Report) {
 	for k, v := range hooks {
 		hookName, hook = k, v
 	}
+	// a method value (`Director: d.direct`) is a synthetic bound-method wrapper: look through it
+	for i := 0; i < 3 && hook != nil && hook.Synthetic != ""; i++ {
+		var inner *ssa.Function
+		for _, c := range Calls(hook) {
+			if g := c.Common().StaticCallee(); g != nil && p.InModule(g) {
+				inner = g
+			}
+		}
+		if inner == nil {
+			break
+		}
+		hook = inner
+	}
 	r.Fn(FName(hook))
 	// R3 host decision (in the hook)
 	okHost := false
@@ -553,8 +619,21 @@ func c08Wiring(p *Prog, r *Report) {
 					return true
 				}
 				if u, ok := v.(*ssa.UnOp); ok {
-					_, isFV := u.X.(*ssa.FreeVar)
-					return isFV
+					if _, isFV := u.X.(*ssa.FreeVar); isFV {
+						return true
+					}
+					// the flag kept in a field of the hook's receiver / captured struct (method-value hooks):
+					// every store to that field in the module stores a parameter of forward.New
+					if n, f, _, okf := fieldOf(u.X); okf && n != nil {
+						sts := p.StoresToField(n, f)
+						for _, st := range sts {
+							prm, isP := stripConv(st.Val).(*ssa.Parameter)
+							if !isP || enclosingRoot(prm.Parent()) != fn {
+								return false
+							}
+						}
+						return len(sts) > 0
+					}
 				}
 				return false
 			}) {
